@@ -108,6 +108,12 @@ func (x *Ctx) bufferRules(r *core.Result, rs *core.RuleStat, names ...string) {
 // wrapperSymmetry: R14d — an exported function taking *Buffer calls the same function with the same arguments
 // in the nil and non-nil branch, passes buffer.stackBuf and stores the returned slice back.
 func (x *Ctx) wrapperSymmetry(r *core.Result, rs *core.RuleStat, names ...string) {
+	x.wrapperSymmetryOpt(r, rs, false, names...)
+}
+
+// wrapperSymmetryOpt: with storeBack the grown stack must also be stored back into the Buffer (needed for the
+// allocation properties C19/C20, irrelevant for result equality C14).
+func (x *Ctx) wrapperSymmetryOpt(r *core.Result, rs *core.RuleStat, storeBack bool, names ...string) {
 	for _, n := range names {
 		fn := x.Func(n)
 		if fn == nil {
@@ -213,7 +219,7 @@ func (x *Ctx) wrapperSymmetry(r *core.Result, rs *core.RuleStat, names ...string
 				}
 			}
 		}
-		if !stored {
+		if !stored && storeBack {
 			r.Fail(rs, key+":storeback", x.W.Pos(withBuf.Pos()), "the grown stack is not stored back into the buffer")
 			bad = true
 		}
